@@ -18,6 +18,8 @@ type C16Case struct {
 	Starts  []int `json:"starts"`
 	Ends    []int `json:"ends"`
 	Queries []int `json:"queries,omitempty"` // extra query positions
+	// FirstCall: the named function is run as the first call into its package in a fresh process
+	FirstCall string `json:"first_call,omitempty"`
 }
 
 func genC16(t *rapid.T, thorough bool) C16Case {
@@ -189,6 +191,11 @@ func classifyC16(c C16Case, o *Obs) {
 }
 
 func checkC16(c C16Case, o *Obs) error {
+	if c.FirstCall != "" {
+		o.NT = true
+		o.Class("first call in a fresh process")
+		return runFirstCall(c.FirstCall)
+	}
 	if len(c.Starts) != len(c.Ends) {
 		o.Class("length mismatch")
 		if p := catch(func() { regions.NewIndex(c.Starts, c.Ends) }); p == nil {
@@ -330,6 +337,9 @@ func abbrevInts(a []int) string {
 }
 
 func exhaustiveC16(thorough bool, emit func(C16Case) bool) {
+	if !emit(C16Case{FirstCall: "regions.NewIndex"}) {
+		return
+	}
 	// thousands of short intervals in no particular order (a read pile-up): more events than any
 	// small-input code path handles, at several nesting depths
 	for _, n := range []int{1000, 5000, 9000} {
@@ -455,6 +465,7 @@ func exhaustiveC16(thorough bool, emit func(C16Case) bool) {
 
 func keyC16(c C16Case) []byte {
 	k := make([]byte, 0, 16*len(c.Starts)+8)
+	k = append(k, c.FirstCall...)
 	for _, l := range [][]int{c.Starts, c.Ends, c.Queries} {
 		for _, x := range l {
 			k = strconv.AppendInt(k, int64(x), 36)
